@@ -326,7 +326,7 @@ impl Prop for C18 {
     fn cases(&self, tier: Tier, seed: u64) -> Vec<Value> {
         let mut v = Vec::new();
         for ty in ["REP", "PULL", "PUB", "ROUTER"] {
-            for k in 0..tier.pick(12, 100) {
+            for k in 0..tier.pick(30, 300) {
                 let len = 10 + (k % 4) * 10;
                 v.push(json!({"kind": "seq", "ty": ty, "len": len, "seed": mix(seed ^ 0xC18 ^ (k as u64) << 4)}));
             }
